@@ -409,6 +409,11 @@ class Generator:
         for l in opts["attr"]:
             w.emit(l + "\n")
         w.emit(kept_attrs(src, item))
+        if "derive_copy" in unit.flags:
+            derives = " ".join(text_of(src, a, b) for a, b in item.attrs)
+            if not re.search(r"derive\s*\([^)]*\bCopy\b", derives):
+                raise ShapeError("%s: unit keeps #[derive(Clone, Copy)] but the type no longer derives Copy" % unit.name)
+            w.emit("#[derive(Clone, Copy)]\n")
         # T1: visibility -> pub
         w.emit("pub ")
         end = item.close + 1
